@@ -204,16 +204,16 @@ type env struct {
 	nextV  int        // index for fresh validator keys
 	steps  []stepRec
 	// history
-	applied     map[common.Hash]string // tx hash -> step id
-	appliedTxs  []*plan
-	appliedFrom map[common.Address]uint64
-	nonce0      map[common.Address]uint64
-	poolLeak    uint64 // gas lost from the pool by post-purchase errors (worker does not restore it)
-	refundGap   uint64 // gas credited back to the pool beyond header.GasUsed (refund finding)
+	applied        map[common.Hash]string // tx hash -> step id
+	appliedTxs     []*plan
+	appliedFrom    map[common.Address]uint64
+	nonce0         map[common.Address]uint64
+	poolLeak       uint64 // gas lost from the pool by post-purchase errors (worker does not restore it)
+	refundGap      uint64 // gas credited back to the pool beyond header.GasUsed (refund finding)
 	refundReported bool
-	dry         int // consecutive steps with a pool too small for any transaction
-	txIndex     int
-	pendingVals map[common.Address]bool
+	dry            int // consecutive steps with a pool too small for any transaction
+	txIndex        int
+	pendingVals    map[common.Address]bool
 }
 
 type stepRec struct {
